@@ -477,3 +477,19 @@ N("rlp-length-threshold-lt-8", ["C16"],
   [("src/support/alloy_rlp.rs", "        let bits = self.bit_len();\n        if bits <= 7 {\n            1", "        let bits = self.bit_len();\n        if bits < 8 {\n            1")])
 B("rlp-length-forgot-header-byte", ["C16"],
   [("src/support/fastrlp_03.rs", "            bytes + length_of_length(bytes)\n", "            bytes + length_of_length(bytes) - 1\n")], "rlp-length")
+# ---- D-lin: re-assigned loop counters (inductive invariants)
+_KN_FOR = "    let mut q_high = 0;\n    for j in (0..=m).rev() {\n"
+_KN_END = "            q_high = q;\n        }\n    }\n"
+N("dlin-knuth-down-counter-loop", ["C14", "C03"],
+  [("src/algorithms/div/knuth.rs", _KN_FOR, "    let mut q_high = 0;\n    let mut j = m;\n    loop {\n"),
+   ("src/algorithms/div/knuth.rs", _KN_END, "            q_high = q;\n        }\n        if j == 0 {\n            break;\n        }\n        j -= 1;\n    }\n")])
+B("dlin-knuth-down-counter-loop-starts-above", ["C14"],
+  [("src/algorithms/div/knuth.rs", _KN_FOR, "    let mut q_high = 0;\n    let mut j = m + 1;\n    loop {\n"),
+   ("src/algorithms/div/knuth.rs", _KN_END, "            q_high = q;\n        }\n        if j == 0 {\n            break;\n        }\n        j -= 1;\n    }\n")], "div_nxm")
+_SQ_FOR = "        for j in 1..N {\n            let (value, next_carry) = carrying_mul_add(modulus[j], m, result[j], carry);\n            result[j - 1] = value;\n            carry = next_carry;\n        }\n"
+N("dlin-square_redc-while-ne", ["C11"],
+  [("src/algorithms/mul_redc.rs", _SQ_FOR, "        let mut j = 1;\n        while j != N {\n            let (value, next_carry) = carrying_mul_add(modulus[j], m, result[j], carry);\n            result[j - 1] = value;\n            carry = next_carry;\n            j += 1;\n        }\n")])
+B("dlin-square_redc-while-le", ["C11"],
+  [("src/algorithms/mul_redc.rs", _SQ_FOR, "        let mut j = 1;\n        while j <= N {\n            let (value, next_carry) = carrying_mul_add(modulus[j], m, result[j], carry);\n            result[j - 1] = value;\n            carry = next_carry;\n            j += 1;\n        }\n")], "square_redc")
+B("dlin-square_redc-while-ne-from-zero", ["C11"],
+  [("src/algorithms/mul_redc.rs", _SQ_FOR, "        let mut j = 0;\n        while j != N {\n            let (value, next_carry) = carrying_mul_add(modulus[j], m, result[j], carry);\n            result[j.wrapping_sub(1) % N] = value;\n            carry = next_carry;\n            j += 2;\n        }\n")], "square_redc")
